@@ -46,6 +46,7 @@ def menu(d):
     M["modes-1-8"] = H + "\nG | [8, 1]\nH({a}-{b}) | [17, 0, 9]\n"
     M["include-2-modes"] = H + 'include "%s"\n\nSub(x=1, y=2) | [3, 4]\nSub(x=2, y=1) | [9, 0]\n' % os.path.join(d, "sub.xbb")
     M["include-3-modes"] = H + 'include "%s"\n\nTri | [5, 6, 7]\nTri | [2, 1, 0]\nG({a}+{alpha}) | 0\n' % os.path.join(d, "tri.xbb")
+    M["include-crossing-names"] = H + 'include "%s"\n\nInner(a={b}, b={c}) | 0\nInner(a={c}+{a}, b={a}) | 1\n' % os.path.join(d, "inner.xbb")
     M["options"] = H + "target g (l=[1, 2], s=\"a\")\ntype t (k=2)\n\nG({b}-{a}) | 0\n"
     return M
 
@@ -53,6 +54,7 @@ def menu(d):
 def write_files(d):
     os.makedirs(d, exist_ok=True)
     open(os.path.join(d, "sub.xbb"), "w").write("name Sub\nversion 1.0\n\nA({x}-{y}) | 8\nB({y}) | [1, 8]\n")
+    open(os.path.join(d, "inner.xbb"), "w").write("name Inner\nversion 1.0\n\nRgate({a} + 2*{b}) | 0\nK(k={b}-{a}) | 0\n")
     open(os.path.join(d, "tri.xbb"), "w").write("name Tri\nversion 1.0\n\nA | 16\nB | [1, 16]\nC(0.5) | [8, 1]\n")
 
 
